@@ -54,6 +54,8 @@ def run_obligation(prop: str, module: str, ob, known: list, workdir: str, seed: 
         "cpu_s": 0.0, "wall_s": 0.0, "replays": 0, "smoke_runs": 0, "known": [], "violation": None, "abandoned": {}, "lines": [], "rounds": 0,
     }
     t0 = time.time()
+    if getattr(ob, "kind", "crosshair") == "smt":
+        return run_smt_obligation(prop, module, ob, known, workdir, res, t0)
     open_known = {}
     for f in known:
         if f.get("status") == "open" and fnmatch.fnmatch(ob.name, f.get("obligations", "*")):
@@ -145,6 +147,45 @@ def run_obligation(prop: str, module: str, ob, known: list, workdir: str, seed: 
     return res
 
 
+def run_smt_obligation(prop, module, ob, known, workdir, res, t0):
+    """Engine B obligation: the harness builds z3 queries from the current source of a kernel and
+    returns {verdict, queries, solver_s, model?, clause?}; sat models are replayed on the real
+    function (smt_replay)."""
+    base = {"module": module, "harness": ob.harness, "cfg": ob.cfg}
+    open_known = {}
+    for f in known:
+        if f.get("status") == "open" and fnmatch.fnmatch(ob.name, f.get("obligations", "*")):
+            for sig in f.get("signatures", [f["signature"]] if "signature" in f else []):
+                open_known[sig] = f
+    r = _run_spec({**base, "mode": "smt"}, workdir, ob.name + ".smt", ob.timeout * 1.5 + 60)
+    res["paths"] = r.get("queries", 0)
+    res["choices"] = r.get("queries", 0)
+    res["cpu_s"] = r.get("solver_s", 0.0)
+    res["smt"] = {k: r.get(k) for k in ("queries", "unsat", "sat", "unknown", "solver_s", "validated", "encoded")}
+    v = r.get("verdict")
+    if v == "confirmed":
+        res["status"] = "discharged"
+    elif v == "refuted":
+        rp = _run_spec({**base, "mode": "smt_replay", "model": r["model"]}, workdir, ob.name + ".smtreplay", 300)
+        res["replays"] += 1
+        doc = {"property": prop, "obligation": ob.name, "module": module, "harness": ob.harness, "cfg": ob.cfg, "clause": r.get("clause"), "model": r["model"], "detail": rp.get("detail"), "engine": "B (AST->z3)", "found_by": "z3 model of the negated property over the encoding of the current source", "replayed": "real function called with the model's values"}
+        if rp.get("ok") is not False:
+            res.update(status="harness_error", message=f"z3 model did not reproduce on the real function: {rp}", witness=doc)
+        elif r.get("clause") in open_known:
+            f = open_known[r["clause"]]
+            res["known"].append({"id": f.get("id"), "signature": r["clause"], "what": f.get("what"), "witness": doc})
+            res["status"] = "discharged" if r.get("only_known") else "inconclusive"
+            res["message"] = "listed finding reproduced; obligation not re-explored with the finding excluded (engine B)"
+        else:
+            res.update(status="violation", violation=doc)
+    elif v == "harness_error":
+        res.update(status="harness_error", message=r.get("message", ""))
+    else:
+        res.update(status="inconclusive", message=r.get("message", "")[:300])
+    res["wall_s"] = round(time.time() - t0, 1)
+    return res
+
+
 def run_property(prop: str, tier: str, seed: int = 0, jobs: int | None = None, only: str | None = None) -> int:
     from vf.engine import envstubs
 
@@ -185,6 +226,7 @@ def run_property(prop: str, tier: str, seed: int = 0, jobs: int | None = None, o
             known_lines.append(f"KNOWN-FINDING: property={prop} {k['id']} [{r['name']}: {k['signature']}] {k['what']} (replay={path})")
         if r["status"] == "violation":
             path = os.path.join(rdir, f"{r['name']}.json")
+            r["violation"].setdefault("script", r["violation"].get("model"))
             json.dump(r["violation"], open(path, "w"), indent=1)
             violations.append((r, path))
         elif r["status"] == "harness_error":
